@@ -101,8 +101,8 @@ Section S.
 Variable ftext : bool -> N -> str.
 Variable b : backend.
 
-Notation tok_text := (tok_text ftext b).
-Notation sc_ok := (sc_ok ftext b).
+Notation tok_text := (tok_text ftext b false).
+Notation sc_ok := (sc_ok ftext b false).
 
 (* pieces with an explicit starting counter *)
 Fixpoint pieces_from (c : N) (sc : script) : list piece :=
@@ -136,7 +136,7 @@ Qed.
 
 (* the first character of the text the rest of the script writes *)
 Lemma first_char_concat sc : forall c,
-  match first_char ftext b sc with
+  match first_char ftext b false sc with
   | Some f => exists x, concat (texts_params b (pieces_from c sc)) = f :: x
   | None => concat (texts_params b (pieces_from c sc)) = []
   end.
@@ -177,7 +177,7 @@ Proof.
                      all2 (piece_toks_ok b) (PText s :: pieces_from c' r) tss = true).
   { intros s Es Hk c'. destruct (IH c' Hr) as (tss & Hl & Ha).
     assert (Hts : exists ts, text_toks b s = Some ts /\ has_param ts = false).
-    { destruct t; try contradiction; cbn [tok_lexes] in Hlex; rewrite Es in Hlex;
+    { destruct t; try contradiction; cbn [tok_lexes] in Hlex; unfold text_lexes in Hlex; rewrite Es in Hlex;
         (destruct (text_toks b s) as [ts|]; [|discriminate Hlex]); exists ts; split; try reflexivity;
         now apply negb_true_iff in Hlex. }
     destruct Hts as (ts & Hts & Hnp). unfold text_toks in Hts.
@@ -188,14 +188,14 @@ Proof.
       rewrite Hj0.
       destruct bl as [|w bl'].
       - cbn [app]. pose proof (first_char_concat r c') as Hf.
-        destruct (first_char ftext b r) as [f|].
+        destruct (first_char ftext b false r) as [f|].
         + destruct Hf as [x ->]. cbn [follow_ok].
           assert (Hs : s <> []).
           { intros ->. cbn in Er. inversion Er; subst. cbn in Hts. congruence. }
-          assert (Hte : tok_empty ftext b t = false).
+          assert (Hte : tok_empty ftext b false t = false).
           { destruct t; try contradiction; cbn [tok_empty]; rewrite Es; destruct s; try reflexivity; contradiction. }
           rewrite Hte in Hfol. cbn [orb] in Hfol.
-          destruct t; try contradiction; cbn [tok_follow_ok] in Hfol; rewrite Es in Hfol;
+          destruct t; try contradiction; cbn [tok_follow_ok] in Hfol; unfold text_follow_ok in Hfol; rewrite Es in Hfol;
             unfold text_trailing_blank, text_toks in Hfol; rewrite Er in Hfol; cbn [fst snd is_nil negb orb] in Hfol;
             rewrite Hts, Ets in Hfol; rewrite Ets; exact Hfol.
         + rewrite Hf. reflexivity.
@@ -214,7 +214,7 @@ Proof.
     cbn [lex_texts]. rewrite hole_noblank, hole_lexes, Hl.
     cbn [app join_ok follow_ok last].
     pose proof (first_char_concat r (c + 1)) as Hf. cbn [tok_empty orb tok_follow_ok] in Hfol.
-    destruct (first_char ftext b r) as [f|].
+    destruct (first_char ftext b false r) as [f|].
     + destruct Hf as [x ->]. cbn [follow_ok follow_char_ok]. rewrite Hfol.
       eexists. split; [reflexivity|]. cbn [all2 piece_toks_ok]. now rewrite N.eqb_refl, Ha.
     + rewrite Hf. cbn [follow_ok]. eexists. split; [reflexivity|]. cbn [all2 piece_toks_ok]. now rewrite N.eqb_refl, Ha.
@@ -228,3 +228,85 @@ Proof.
   intros H. unfold params_sep. rewrite pieces_eq. destruct (sc_ok_pieces sc 0 H) as (tss & -> & Ha). exact Ha.
 Qed.
 End S.
+
+(* ---------- the inline mode ---------- *)
+Section I.
+Variable ftext : bool -> N -> str.
+Variable b : backend.
+Notation tok_text := (tok_text ftext b true).
+Notation sc_ok := (sc_ok ftext b true).
+
+(* the texts of the inline SQL: one per writer token (WPanic writes nothing) *)
+Definition texts_of (sc : script) : list str :=
+  flat_map (fun t => match t with WPanic => [] | _ => [tok_text t] end) sc.
+
+Lemma texts_inline_eq sc : forall pre,
+  texts_inline ftext b (pre ++ vals_of sc) (pieces_from ftext b (N.of_nat (length pre)) sc) = texts_of sc.
+Proof.
+  induction sc as [|t r IH]; intros pre; [reflexivity|].
+  destruct t as [s|s|v|v|s|]; cbn [pieces_from texts_of flat_map app];
+    try (change (vals_of (?t0 :: r)) with (vals_of r);
+         change (texts_inline ftext b ?vs (PText ?x :: ?ps)) with (x :: texts_inline ftext b vs ps);
+         now rewrite IH).
+  - (* hole *)
+    change (vals_of (WVal v :: r)) with (v :: vals_of r).
+    change (texts_inline ftext b ?vs (PHole ?n :: ?ps))
+      with ((match hole_value vs n with Some v0 => value_to_string ftext b v0 | None => [] end)
+              :: texts_inline ftext b vs ps).
+    assert (Hv : hole_value (pre ++ v :: vals_of r) (N.of_nat (length pre) + 1) = Some v).
+    { unfold hole_value. replace (N.to_nat (N.of_nat (length pre) + 1 - 1)) with (length pre) by lia.
+      rewrite nth_error_app2 by lia. now rewrite Nat.sub_diag. }
+    rewrite Hv. cbn [ScriptSafe.tok_text]. f_equal.
+    specialize (IH (pre ++ [v])). rewrite <- app_assoc in IH. cbn [app] in IH.
+    rewrite app_length in IH. cbn [length] in IH.
+    replace (N.of_nat (length pre + 1)) with (N.of_nat (length pre) + 1) in IH by lia. exact IH.
+Qed.
+
+Lemma first_char_texts sc :
+  match first_char ftext b true sc with
+  | Some f => exists x, concat (texts_of sc) = f :: x
+  | None => concat (texts_of sc) = []
+  end.
+Proof.
+  induction sc as [|t r IH]; [reflexivity|]. cbn [first_char texts_of flat_map].
+  destruct t as [s|s|v|v|s|]; cbn [app concat];
+    try (destruct (tok_text _) as [|c0 s0] eqn:Es; [cbn [app]; exact IH|eexists; reflexivity]).
+  exact IH.
+Qed.
+
+Theorem sc_ok_texts sc : sc_ok sc = true -> exists tss, lex_texts b (texts_of sc) = Some tss.
+Proof.
+  induction sc as [|t r IH]; intros Hok; [exists []; reflexivity|].
+  cbn [ScriptSafe.sc_ok] in Hok. apply andb_prop in Hok as [Hok Hr]. apply andb_prop in Hok as [Hlex Hfol].
+  destruct (IH Hr) as (tss & Hl).
+  destruct t as [s|s|v|v|s|]; cbn [texts_of flat_map app]; try (exists tss; exact Hl).
+  all: fold (texts_of r); cbn [lex_texts];
+    match goal with |- context [rstrip ?s0] => set (tx := s0) in * end;
+    cbn [ScriptSafe.tok_lexes] in Hlex; unfold text_lexes, text_toks in Hlex; fold tx in Hlex;
+    destruct (rstrip tx) as [core bl] eqn:Er; cbn [fst] in Hlex;
+    destruct (eng_tokens b core) as [ts|] eqn:Ets; [|discriminate Hlex]; rewrite Hl;
+    assert (Hj : join_ok ts (bl ++ concat (texts_of r)) = true).
+  all: try (rewrite Hj; eexists; reflexivity).
+  all: destruct ts as [|t0 ts0] eqn:E0; [reflexivity|]; rewrite <- E0 in *;
+    assert (Hj0 : forall x, join_ok ts x = follow_ok (last ts (TkPunct 0)) x) by (rewrite E0; reflexivity);
+    rewrite Hj0;
+    (destruct bl as [|w bl'];
+     [|destruct (rstrip_spec tx core (w :: bl') Er) as [_ Hb]; cbn [forallb] in Hb;
+       apply andb_prop in Hb as [Hw _]; cbn [app follow_ok]; now apply follow_ws]);
+    cbn [app]; pose proof (first_char_texts r) as Hf;
+    (destruct (first_char ftext b true r) as [f|]; [|rewrite Hf; reflexivity]);
+    destruct Hf as [x ->]; cbn [follow_ok];
+    assert (Hs : tx <> []) by (intros Hs0; rewrite Hs0 in Er; cbn in Er; inversion Er; subst; cbn in Ets; congruence);
+    cbn [ScriptSafe.tok_empty ScriptSafe.tok_follow_ok] in Hfol; fold tx in Hfol;
+    (destruct tx as [|c0 s1] eqn:Es0; [contradiction|]); cbn [is_nil orb] in Hfol; rewrite <- Es0 in *;
+    unfold text_follow_ok, text_trailing_blank, text_toks in Hfol; rewrite Er in Hfol;
+    cbn [fst snd is_nil negb orb] in Hfol; rewrite Ets, E0 in Hfol; rewrite E0; exact Hfol.
+Qed.
+
+Theorem sc_ok_inline_sep sc : sc_ok sc = true -> inline_sep ftext b sc = true.
+Proof.
+  intros H. unfold inline_sep. rewrite pieces_eq.
+  pose proof (texts_inline_eq sc []) as E. cbn [app length] in E. change (N.of_nat 0) with 0 in E. rewrite E.
+  destruct (sc_ok_texts sc H) as (tss & ->). reflexivity.
+Qed.
+End I.
